@@ -268,3 +268,56 @@ def c_stop(ctx, case):
                  "iteration %d (distance %.2g); L=%s"
                  % (thr, cap, best, dist(got, models[best]), kstar, d_here,
                     ["%.10g" % v for v in L[1:kstar + 2]]), "wrong-iteration-count")
+
+
+def g_again(draw):
+    c = g_stop(draw)
+    c["pre"] = gen.integer(draw, 1, 3)
+    c["unknown_chunks"] = False
+    return c
+
+
+@REG.obligation("second_fit_applies_the_rule_afresh", g_again, quick=250, thorough=5000)
+def c_again(ctx, case):
+    """A machine trained before (same object, `pre` capped iterations, no threshold) and then trained again with a
+    threshold and a cap continues from the parameters it holds, and the stop rule starts afresh: iteration 1 of the
+    second call never stops, the call performs exactly min(k*, cap) iterations counted from its own start."""
+    X, init, upd, thr, cap, pre = case["X"], case["init"], case["upd"], case["thr"], case["cap"], int(case["pre"])
+    Kmax = cap if cap is not None else 40
+    models, L, active = ref.ml_trajectory(X, (init["weights"], init["means"], init["variances"]), upd,
+                                          pre + Kmax + 1, EPS, init["floors"])
+    L2 = [None] + list(L[pre + 1: pre + Kmax + 2])
+    kstar, closest = ref.stop_iteration(L2[: Kmax + 1], thr, cap)
+    if kstar is None:
+        ctx.discard("no stop within 40 iterations and no cap")
+    if closest < 1e-6 and not (thr == 0.0 and closest >= 1e-11):
+        ctx.discard("convergence value within 1e-6 of the threshold")
+    if any(active[1:pre + kstar + 2]):
+        ctx.discard("floor active (trajectory ill-conditioned)")
+    g = machine(init, upd, None, pre)
+    with guard.budget(pre + 1):
+        fit(g, case)
+    g.set_params(convergence_threshold=thr, max_fitting_steps=cap)
+    with guard.budget(kstar + 2):
+        fit(g, case)
+        n_steps = guard.steps()
+    got = sut.params_of(g)
+    convs = [abs((L2[k - 1] - L2[k]) / L2[k - 1]) if L2[k - 1] != 0 else np.inf for k in range(2, kstar + 1)]
+    sure = thr is None or all(abs(cv - thr) > 1e-6 * thr + 1e-12 for cv in convs)
+    # is the previous call's last value within the threshold of this call's first? (then a rule that remembers it
+    # would stop at once)
+    carried = thr is not None and kstar >= 2 and abs((L[pre] - L[pre + 1]) / L[pre]) <= thr
+    ctx.note(thr is not None and kstar >= 2 and any(upd) and init["C"] >= 2, "pre=%d" % pre,
+             "previous call's last value within the threshold" if carried else None,
+             "dask" if case["dask"] else "numpy", "stop-before-cap" if (cap is None or kstar < cap) else "stop-at-cap")
+    if sure:
+        ctx.check(n_steps == kstar, "second fit(threshold=%r, cap=%r) after %d earlier iteration(s) performed %d iterations, "
+                  "the stop rule (started afresh) says %d" % (thr, cap, pre, n_steps, kstar), "wrong-iteration-count")
+    want = models[pre + kstar]
+    d = 0.0
+    for x, y in zip(got, want):
+        sc = np.maximum(np.maximum(np.abs(x), np.abs(y)), 1e-300)
+        d = max(d, float((np.abs(x - y) / sc).max()))
+    ctx.stat_max("dist to predicted model", d)
+    ctx.check(d <= 1e-6, "second fit returned a model at relative distance %.2g from the one %d + %d iterations give"
+              % (d, pre, kstar), "wrong-model")
